@@ -100,6 +100,8 @@ func cmdCases(args []string) {
 		obs, err = cases.Response(w, raws)
 	case "routing":
 		obs, err = cases.Routing(w, raws)
+	case "persist":
+		obs, err = cases.Persist(w, raws)
 	case "keycodec":
 		obs, err = cases.KeyCodec(w, raws)
 	case "proxyxform":
